@@ -207,3 +207,27 @@ def r06_6_decoders_restore_every_field(ctx: Ctx) -> RuleResult:
     for f in r.findings:
         f.rule = "R06.6"
     return r
+
+
+# shared with C04: every recurrence query made by the alternating map is used by the decision that follows (home id R04.8)
+from .c04 import r04_8_queries_are_used as _r04_8  # noqa: E402
+
+rule("C06")(_r04_8)
+
+
+@rule("C06")
+def r06_7_memo_keys(ctx: Ctx) -> RuleResult:
+    """Zones handed out by the source / provider / cache layers are memoised in places; a memo keyed on less than the request
+    (e.g. the canonical id only) returns a zone carrying another id."""
+    from ..memo import memo_tables
+
+    rr = RuleResult("R06.7", "zone lookups: every memo table in the zone layer is keyed on the whole request (or validates a hit against it)", min_instances=2)
+    for mt in memo_tables(ctx.M):
+        if "/time_zones/" not in mt.fn.mod.rel and "_date_time_zone" not in mt.fn.mod.rel:
+            continue
+        rr.inst()
+        if mt.problem:
+            rr.fail(mt.fn.qual, mt.problem, ctx.loc(mt.fn, mt.node))
+        else:
+            rr.ok({"memo": mt.fn.qual, "table": mt.table, "key": mt.store_key[:80]})
+    return rr
